@@ -82,46 +82,55 @@ def run(ctx):
     ctx.behaviours += len(evs)
     # ------------------------------------------------------------------ arbitrary lengths
     lengths = [1, 2, 3, 5, 6, 7, 16, 31, 64, 127, 1024] + ([3001, 4099, 8192, 16384] if T else [])
-    for it in range(len(lengths) * (40 if T else 3)):
-        n = lengths[it % len(lengths)]
+    scales = [1.0, 1e-15, 1e-9, 1e6, 1e-20, 1.0, 1e-12]
+    plan = [(lengths[it % len(lengths)], it % 3 == 0, 1 + (it % 2), it % 4 != 1, scales[it % 7], it % 6 == 3) for it in range(len(lengths) * (40 if T else 4))]
+    # long records (library back ends may switch on size), both layouts, complex and real
+    plan += [(65536, False, 1, True, 1.0, False), (32768, False, 2, True, 1.0, False), (70001, False, 1, True, 1.0, False), (40000, False, 2, True, 1e-9, True),
+             (131072, True, 1, True, 1.0, False)] + ([(262144, False, 2, True, 1.0, False), (1 << 20, False, 1, False, 1.0, False)] if T else [])
+    for it, (n, real, npol, noisy, scale, eqrows) in enumerate(plan):
         fs = setgv(it)
         rs = np.random.RandomState(1000 + it)
-        real = it % 3 == 0
-        npol = 1 + (it % 2)
-        noisy = it % 4 != 1
         def fld():
             a = rs.randn(npol, n) if real else rs.randn(npol, n) + 1j * rs.randn(npol, n)
-            return a if npol == 2 else a[0]
+            return (a if npol == 2 else a[0]) * scale
         s, nz = fld(), (fld() if noisy else None)
+        if eqrows and npol == 2:
+            s[1] = s[0]                                       # identical signal rows, different noise rows
         if n % gv.sps == 0 and it % 2 == 0:
             with warnings.catch_warnings():
                 warnings.simplefilter("ignore")
                 gv(sps=gv.sps, R=gv.R, N=n // gv.sps)          # a slot count in force whose grid has exactly the record's length
             fs = gv.fs
         obj = optical_signal(s, nz) if (npol == 2 or it % 5 == 0) else electrical_signal(s, nz)
-        for a in (obj.signal, obj.noise):
-            if a is not None:
-                a.flags.writeable = False
+        keep = (obj.signal.copy(), None if obj.noise is None else obj.noise.copy())
+        if it % 2 == 0:
+            for a in (obj.signal, obj.noise):
+                if a is not None:
+                    a.flags.writeable = False
+        o = 10 * scale                                        # offsets keep the comparison relative to the record's own scale
         with deadline(60):
             W, Ws, F = obj("w"), obj("w", True), obj("f")
             Tm, Ts = W("t"), obj("t", True)
-            law("x('w')('t')=x", Tm.signal + 10, obj.signal + 10)
-            law("x('t')('w')=x", obj("t")("w").signal + 10, obj.signal + 10)
+            law("transform-leaves-x-unchanged", obj.signal + o, keep[0] + o)
             if noisy:
-                law("noise-round-trip", Tm.noise + 10, obj.noise + 10)
-                law("noise-transformed-like-signal", W.noise + 10 * n, type(obj)(obj.noise)("w").signal + 10 * n)
+                law("transform-leaves-x-unchanged", obj.noise + o, keep[1] + o)
+            law("x('w')('t')=x", Tm.signal + o, obj.signal + o)
+            law("x('t')('w')=x", obj("t")("w").signal + o, obj.signal + o)
+            if noisy:
+                law("noise-round-trip", Tm.noise + o, obj.noise + o)
+                law("noise-transformed-like-signal", W.noise + o * n, type(obj)(obj.noise)("w").signal + o * n)
             law("Parseval", np.sum(np.abs(np.atleast_2d(W.signal)) ** 2, axis=-1), n * np.sum(np.abs(np.atleast_2d(obj.signal)) ** 2, axis=-1))
-            law("'f'='w'", F.signal + 10 * n, W.signal + 10 * n)
-            law("ifftshift(x('w',shift))=x('w')", np.fft.ifftshift(Ws.signal, axes=-1) + 10 * n, W.signal + 10 * n)
-            law("fftshift(x('t',shift))=x('t')", np.fft.fftshift(Ts.signal, axes=-1) + 10, obj("t").signal + 10)
-            law("x('w')=numpy.fft.fft", W.signal + 10 * n, np.fft.fft(obj.signal, axis=-1) + 10 * n)
-            law("x('t')=numpy.fft.ifft", obj("t").signal + 10, np.fft.ifft(obj.signal, axis=-1) + 10)
+            law("'f'='w'", F.signal + o * n, W.signal + o * n)
+            law("ifftshift(x('w',shift))=x('w')", np.fft.ifftshift(Ws.signal, axes=-1) + o * n, W.signal + o * n)
+            law("fftshift(x('t',shift))=x('t')", np.fft.fftshift(Ts.signal, axes=-1) + o, obj("t").signal + o)
+            law("x('w')=numpy.fft.fft", W.signal + o * n, np.fft.fft(obj.signal, axis=-1) + o * n)
+            law("x('t')=numpy.fft.ifft", obj("t").signal + o / n, np.fft.ifft(obj.signal, axis=-1) + o / n)
             tot = obj.signal + (obj.noise if noisy else 0)
             law("power=mean|s+n|^2", np.atleast_1d(obj.power()), np.atleast_1d(np.mean(np.abs(tot) ** 2, axis=-1)))
             k_axis = np.fft.fftfreq(n) * n
             law("w()=2pi*k*fs/N", obj.w() + fs * 10, 2 * math.pi * k_axis * fs / n + fs * 10)
             law("w(shift)=2pi*k*fs/N", obj.w(True) + fs * 10, np.fft.fftshift(2 * math.pi * k_axis * fs / n) + fs * 10)
-        ctx.case(("laws", n, type(obj).__name__, npol, noisy, real, it % 5))
+        ctx.case(("laws", n, type(obj).__name__, npol, noisy, real, it % 5, scale, eqrows))
     gv.clean()
     for idx, clause in ctx.validate("SpectralTrace", events, note="transform laws"):
         ctx.violation(f"law:{clause}", f"law {meta[idx - 1]} rejected: {events[idx - 1]}", {"event": events[idx - 1]})
